@@ -12,5 +12,5 @@ CONSTANTS
   MaxBig = 17
 INIT MCInit
 NEXT Next
-INVARIANTS SerValid RoundTrip ParCorrect Bounded LFIndexOk LemmaInv SrvDenotes NeverTrunc
+INVARIANTS SerValid RoundTrip ParCorrect Bounded LFIndexOk LemmaInv SrvDenotes NeverErr
 CHECK_DEADLOCK FALSE
